@@ -61,6 +61,9 @@ type Case struct {
 	// cancellable context, attached it with SetRequest and its deferred cancel ran while the panic unwound). None of them is a
 	// broken connection reported by the panic value.
 	Ctx string `json:"ctx,omitempty"`
+	// CloneWith: a global middleware outside Recovery hands a CloneWith copy of the context down the chain (what a
+	// response-wrapping middleware does); Recovery then works on that copy
+	CloneWith bool `json:"clone_with,omitempty"`
 }
 
 var ctxStates = []string{"", "", "", "canceled", "deadline", "canceled-in-mw"}
@@ -250,7 +253,19 @@ func checkCase(c *Case) (err error) {
 			next(fc)
 		}
 	}
+	cloneMw := func(next fox.HandlerFunc) fox.HandlerFunc {
+		return func(fc fox.Context) {
+			if !c.CloneWith {
+				next(fc)
+				return
+			}
+			cp := fc.CloneWith(fc.Writer(), fc.Request())
+			defer cp.Close()
+			next(cp)
+		}
+	}
 	opts := []fox.GlobalOption{
+		fox.WithMiddleware(cloneMw), // outside Recovery: Recovery and everything below it run on the copy
 		fox.WithMiddleware(fox.CustomRecoveryWithLogHandler(logs, fox.DefaultHandleRecovery)),
 		fox.WithMiddleware(timeoutMw),
 		fox.WithNoRouteHandler(special), fox.WithNoMethodHandler(special), fox.WithOptionsHandler(special),
@@ -452,6 +467,7 @@ func genCase(t *rapid.T) *Case {
 		c.First = gen.Pick(t, firsts, "first")
 	}
 	c.Ctx = gen.Pick(t, ctxStates, "ctx")
+	c.CloneWith = gen.Chance(t, 1, 3, "clonewith")
 	n := gen.IntR(t, 0, 6, "nheaders")
 	for i := 0; i < n; i++ {
 		tok := fmt.Sprintf("tok%dZ%dq", i, gen.IntR(t, 100000, 999999, "tok"))
@@ -508,6 +524,7 @@ func TestExhaustive(t *testing.T) {
 						c.First = firsts[(cut+len(v)+len(p))%len(firsts)]
 					}
 					c.Ctx = ctxStates[(cut+len(v)+2*len(p)+len(kw[0]))%len(ctxStates)]
+					c.CloneWith = (cut+len(v)+len(p)+len(kw[1]))%3 == 0
 					stats.Eval()
 					stats.NonTrivial(fmt.Sprintf("exh|%+v", *c))
 					if err := checkCase(c); err != nil {
